@@ -14,8 +14,9 @@ RULE = ('(A) cassette level: recordings with mutable values (lists, dicts, sets,
         'every cassette type; a generated script of reads (get_data, recording[key], get_data_direct on one fetch, '
         'get_metadata, values passed to set_data before save) each followed by a generated in-place mutation (append, '
         'setitem, clear, attribute set, nested) and re-reads / re-fetches. (B) replay level: a recorded program is '
-        'replayed by code that mutates every injected input and every value inside Playback.recorded_outputs, then '
-        'replayed again unmodified. (C) copy-on-interception: the recording operation mutates the value an intercepted '
+        'replayed by code that mutates every injected input, annotates every exception it catches (raising inputs are '
+        'called twice, as in a retry) and mutates every value inside Playback.recorded_outputs, then replayed again '
+        'unmodified. (C) copy-on-interception: the recording operation mutates the value an intercepted '
         'input/output returned right after the call. Oracle: a pristine model built independently from the case '
         'description: every later read / fetch / replay equals it, and two reads of one key are distinct objects. '
         'Non-trivial: a mutation that changed the value (mutated != pristine) followed by a re-read. Distinct = '
@@ -113,7 +114,15 @@ def mutating_variant(prog):
 
 def check_replay(ctx, case):
     from playback.tape_recorder import TapeRecorder
-    prog = PS.assign_sids(PS.normalise_inputs(copy.deepcopy(case['prog'])))
+    prog = copy.deepcopy(case['prog'])
+    # every raising input call is made twice in a row (a retry): the second raise must be a fresh exception
+    doubled = []
+    for s_ in prog['steps']:
+        doubled.append(s_)
+        if s_['t'] == 'in' and s_['beh'] == 'raise':
+            doubled.append(copy.deepcopy(s_))
+    prog['steps'] = doubled
+    prog = PS.assign_sids(PS.normalise_inputs(prog))
     copy_on = case.get('copy_on')
     live_prog = prog
     if copy_on:
@@ -153,6 +162,7 @@ def check_replay(ctx, case):
         first_ro = None
         for round_, (p, smap) in enumerate([(mut, sid_map), (prog, None), (mut, sid_map), (prog, None)]):
             W2 = PS.World('REPLAY')
+            W2.mutate_exceptions = True
             cls2 = PS.build_class(p, rec, W2)
             classes.append(cls2)
             seen_at_call = {}
@@ -167,6 +177,16 @@ def check_replay(ctx, case):
                 pb = rec.play(rid, playback_function)
             except Exception as e:  # pylint: disable=broad-except
                 raise Violation('play() #%d raised %s: %s' % (round_ + 1, type(e).__name__, e), 'replay-raises')
+            if W2.stale_exceptions:
+                raise Violation('replay #%d: a recorded exception was raised again carrying the annotations that replayed '
+                                'code had put on an earlier raise of it: %r' % (round_ + 1, W2.stale_exceptions[:2]),
+                                'exception-shared')
+            for key in list(pb.original_recording.get_all_keys()):
+                stored = pb.original_recording.get_data(key)
+                if isinstance(stored, dict) and getattr(stored.get('exception'), 'verif_annotations', None):
+                    raise Violation('replay #%d: the exception stored under %r now carries annotations made by replayed '
+                                    'code: %r' % (round_ + 1, key, stored['exception'].verif_annotations),
+                                    'exception-shared')
             # values observed at the call sites: the digest holds deep copies taken at the moment of the call
             digest = dict((x[1], x) for x in pb_digest(W2))
             for sid, obs in digest.items():
